@@ -180,6 +180,41 @@ def run(ctx):
         check_guises(ns, "system=" + sname, lambda d, n: d.get(n))
         ctx.count("registries", 1)
 
+    # user-defined unit systems, including offset temperature scales and quantity-valued bases: the constants built for such
+    # a registry must be the same physical quantities (compared after converting back to the default constant's unit, so that
+    # zero-point offsets are honoured)
+    from unyt import UnitSystem
+
+    custom = [("vfc15_degF", ("ft", "lb", "s"), {"temperature_unit": "degF"}), ("vfc15_degC", ("cm", "g", "s"), {"temperature_unit": "degC"}),
+              ("vfc15_R", ("mile", "Msun", "yr"), {"temperature_unit": "R", "angle_unit": "degree"}), ("vfc15_mK", ("km", "kg", "hr"), {"temperature_unit": "mK", "current_mks_unit": "mA"})]
+    for sname, bases, kw in custom:
+        try:
+            UnitSystem(sname, *bases, **kw)
+            reg = UnitRegistry(unit_system=sname)
+            ns = {}
+            add_constants(ns, reg)
+        except Exception as e:
+            ctx.violation(f"C15:custom-unit-system-constants-raise:{type(e).__name__}", {"system": sname, "error": str(e)[:200]})
+            continue
+        for cn in canon_names:
+            if cn not in default_si:
+                continue
+            for name in [cn] + list(pct[cn][2]):
+                q = ns.get(name)
+                ref = getattr(pc, cn)
+                if q is None:
+                    continue
+                ctx.ev()
+                ctx.nt(("custom-system", sname, name))
+                try:
+                    back = float(q.to(ref.units).value)
+                except Exception as e:
+                    ctx.violation(f"C15:custom-system-constant-not-convertible:{cn}", {"system": sname, "name": name, "got": repr(q)[:80], "error": type(e).__name__})
+                    continue
+                if relerr(back, float(ref.value)) > 1e-11:
+                    ctx.violation(f"C15:custom-system-constant-differs:{cn}", {"system": sname, "name": name, "got": repr(q)[:80], "converted_back": back, "default": float(ref.value)})
+        ctx.count("custom unit-system registries", 1)
+
     # defining relations (library values only, 1e-12)
     g = {k: mp.mpf(v[0]) for k, v in default_si.items()}
     pi = mp.pi
